@@ -378,7 +378,10 @@ def run_schedule(case):
     def stub_start(self, *a, **k):
         w = h.me()
         w.park("start")
-        h.ev(w, 8, self.child)
+        # what the child is handed (`self._tty_lock`, installed by the real _process_run_wrapper):
+        # 0 = the thread lock, 1.. = a multiprocessing lock, 9 = nothing
+        handed = getattr(self, "_tty_lock", None)
+        h.ev(w, 8, self.child, handed.code if isinstance(handed, TracedLock) else 9)
         for x in h.workers.values():
             if x.proc == self.child:
                 x.started = True
